@@ -5,6 +5,7 @@ from __future__ import annotations
 
 import functools
 import gc
+import operator
 import sys
 import threading
 import traceback
@@ -90,14 +91,22 @@ def builtin_glue(needs_module: str) -> Callable[[InstallGlueFn], InstallGlueFn]:
 glue_lock = threading.Lock()
 
 
-def add_glue_as_needed(*, _sys_modules_len_cache: list[int] = [0]) -> None:
-    if len(sys.modules) == _sys_modules_len_cache[0]:
+def add_glue_as_needed(
+    *, _sys_modules_cache: list[Tuple[object, ...]] = [()]
+) -> None:
+    # Fast path: nothing to do if sys.modules contains exactly the same
+    # module objects as the last time we looked. (Just comparing the number
+    # of modules is not enough: one module might have been removed and
+    # another added or substituted since then.)
+    seen = _sys_modules_cache[0]
+    current = tuple(sys.modules.values())
+    if len(current) == len(seen) and all(map(operator.is_, current, seen)):
         return
     # Use a lock to avoid races between multiple threads trying to extract
     # tracebacks simultaneously
     with glue_lock:
-        module_names = tuple(sys.modules)
-        for module_name in module_names:
+        module_items = tuple(sys.modules.items())
+        for module_name, _ in module_items:
             builtin_fn = builtin_glue_pending.pop(module_name, None)
             try:
                 module_fn = sys.modules[module_name].__dict__.pop(
@@ -125,9 +134,9 @@ def add_glue_as_needed(*, _sys_modules_len_cache: list[int] = [0]) -> None:
                     "missing information.",
                     RuntimeWarning,
                 )
-        # Only update the length cache if we visited every module (rather
+        # Only update the cache if we visited every module (rather
         # than bailing out with an exception)
-        _sys_modules_len_cache[0] = len(module_names)
+        _sys_modules_cache[0] = tuple(module for _, module in module_items)
 
 
 functools_singledispatch_wrapper = get_code(functools.singledispatch, "wrapper")
